@@ -182,10 +182,20 @@ func (g *Gen) tplMetaOps() []L.Stmt {
 			// __index chains
 			depth := 1 + g.n(5, "chaindepth")
 			ss := []L.Stmt{local1("base", tbl(kv(str("deep"), str("bottom"))))}
+			if g.n(2, "chainfn") == 0 {
+				// the chain ends in a function: it must receive the table that owns the handler, and the key
+				g.class("meta:index_chain_ends_in_function")
+				ss = []L.Stmt{local1("owner", tbl(kv(str("tag"), str("owner")))),
+					local1("base", call(name("setmetatable"), name("owner"), tbl(kv(str("__index"), fn([]string{"t", "k"}, false, blk(emit(str("chain handler"), name("t"), bin("==", name("t"), name("owner")), name("k")), ret(bin("..", str("fn:"), call(name("tostring"), name("k"))))))))))}
+			}
 			for d := 0; d < depth; d++ {
 				ss = append(ss, assign1(name("base"), call(name("setmetatable"), tbl(), tbl(kv(str("__index"), name("base"))))))
 			}
 			ss = append(ss, emit(field(name("base"), "deep"), field(name("base"), "nothing"), call(name("rawget"), name("base"), str("deep"))))
+			// the same lookups through a computed key, a method call and as the environment of a function
+			ss = append(ss, local1("ck", str("computed")), emit(idx(name("base"), name("ck")), idx(name("base"), num(7))),
+				emit(call(name("pcall"), fn(nil, false, blk(ret(mcall(name("base"), "method", num(1))))))),
+				local1("envf", fn(nil, false, blk(ret(name("freeglobal"))))), callStmt(call(name("setfenv"), name("envf"), name("base"))), emit(call(name("envf"))))
 			if g.n(3, "loopchain") == 0 {
 				// a chain that loops back on itself must end in an error, not hang
 				ss = append(ss, local1("l1", tbl()), local1("l2", call(name("setmetatable"), tbl(), tbl(kv(str("__index"), name("l1"))))), callStmt(call(name("setmetatable"), name("l1"), tbl(kv(str("__index"), name("l2"))))),
